@@ -14,6 +14,7 @@ EXPLANATION = """
 R13.1 pushes guarded by the emptiness test, shrinks followed by an emptiness test; R13.2 eat(): all mutation of the
 deque happens after the scan decided 'matched'; R13.3 pop_except_from/peek/next use only the front buffer,
 push_front inserts at the front; R13.4 reviewed normal forms of markup5ever::util (24 functions).
+R13.2 also: eat() answers None only for an empty queue or where the text ran out inside the comparison loop.
 """
 ASSUMPTIONS = ["VecDeque and StrTendril::{pop_front_char, pop_front, chars} behave as documented (C11)"]
 AREA = "markup5ever_util"
